@@ -407,8 +407,29 @@ func partRealRegistryAcrossReregistration(c *check.Ctx, a *acc) {
 		return
 	}
 	aSID := A.SID
+	gauge := func() float64 {
+		ms, err := p.Metrics()
+		if err != nil {
+			panic(err)
+		}
+		return ms["session_count"]
+	}
+	g0 := gauge()
 	A.Close()
 	A.WaitClosed()
+	// the session A created before the re-registration has lost its only member
+	// after it: it ends like any other - the gauge of live sessions drops by one
+	// (bounded wait for the departure to be processed)
+	g1 := g0
+	for k := 0; k < 300; k++ {
+		if g1 = gauge(); g1 == g0-1 {
+			break
+		}
+		time.Sleep(10 * time.Millisecond)
+	}
+	if g1 != g0-1 {
+		rf([]string{"C07"}, "gauge/session-count", "a session created before a re-registration lost its only member after it; three seconds later the session gauge is %v (it was %v with that session): the session was not disposed of", g1, g0)
+	}
 	time.Sleep(150 * time.Millisecond)
 	// two sessions are created (one takes over the numeric id that became free)
 	live := []*scen.C{B}
@@ -455,7 +476,24 @@ func partRealRegistryAcrossReregistration(c *check.Ctx, a *acc) {
 		}
 		P.Close()
 	}
+	// everybody leaves: no live session is left, whatever epoch it was created in
+	for _, cl := range live {
+		cl.Close()
+	}
+	D.Close()
+	for _, cl := range live {
+		cl.WaitClosed()
+	}
+	D.WaitClosed()
+	gEnd := gauge()
+	for k := 0; k < 300 && gEnd != 0; k++ {
+		time.Sleep(10 * time.Millisecond)
+		gEnd = gauge()
+	}
+	if gEnd != 0 {
+		rf([]string{"C07"}, "gauge/session-count", "after a re-registration every connection has left (sessions created before and after it); three seconds later the session gauge is %v, want 0", gEnd)
+	}
 	c.Coverage["real_binary_reregistration_live_sessions_checked"] = len(live)
-	a.add(len(live)+2, len(live), "E7: the session registry of the real binary across a re-registration that changes its server id (sessions of both epochs, one ended in between, joins by ids of both epochs): live sessions have distinct ids and are found under the id their creator was given; the ended one is not found",
+	a.add(len(live)+2, len(live), "E7: the session registry of the real binary across a re-registration that changes its server id (sessions of both epochs, one ended in between, joins by ids of both epochs): live sessions have distinct ids and are found under the id their creator was given; the ended one is not found, the session gauge drops when it ends and is zero after everybody has left",
 		map[string]any{"engine": "E7 registry across re-registration", "live_sessions": len(live)})
 }
